@@ -30,6 +30,13 @@ def world():
         w[nm] = z3.Int(nm)
     for nm in ('period_missing', 'bad_options', 'media_missing'):
         w[nm] = z3.Bool(nm)
+    for nm in ('ast_us', 'depth', 'opt_depth'):
+        w[nm] = z3.Int(nm)
+    w['micros'] = lambda dt: zint(dt.us) if isinstance(dt, DT) else z3.IntVal(-1)
+    w['params_of'] = lambda period, k, kind: z3.BoolVal(
+        isinstance(period.f['adaptationSets'], PyList) and len(period.f['adaptationSets'].items) > k and
+        period.f['adaptationSets'].items[k].f.get('got_params') == {'k': kind} and
+        period.f['adaptationSets'].items[k].f['content_type'] == kind)
     w['__ctors__'] = dict(w['__ctors__'])
     w['__ctors__'].update({'SegmentPosition': lambda eng, a, kw: tuple(a)})
     return w
@@ -175,6 +182,58 @@ def mps_get_contract():
 
 
 MPS_GET = mps_get_contract()
+
+
+# ----------------------------------------------------------------------------- create_period: the window the URLs carry (C01)
+def create_period_contract():
+    """ManifestContext.create_period (single-period flavour): when a DashTiming is given, the options' availabilityStartTime
+    and timeShiftBufferDepth are the timing's RESOLVED values at the moment the media URL parameters are computed - that is what
+    lets a segment request rebuild the same availability window (C01 mechanism 6) - and every adaptation set gets the
+    parameter set of its own media type."""
+    def env(w):
+        timing = Obj('DashTiming', {'availabilityStartTime': DT(z3.Int('ast_us')), 'timeShiftBufferDepth': z3.Int('depth')})
+        opts = Obj('OptionsContainer', {'abr': True, 'mode': 'live', 'encrypted': False, 'segmentTimeline': False, 'useBaseUrls': True,
+                                        'availabilityStartTime': Opaque('symbolic-start'), 'timeShiftBufferDepth': z3.Int('opt_depth')})
+        me = Obj('ManifestContext', {'options': opts, 'cgi_params': None, 'locationURL': None})
+        return {'self': me, 'stream': Obj('Stream', {'directory': Opaque('dir')}), 'timing': timing, 'db_period': None}
+
+    def adp(kind):
+        return Obj('AdaptationSet', {'content_type': kind, 'lang': Opaque('lang'), 'encrypted': False, 'got_params': None,
+                                     'event_streams': PyList([])})
+
+    def cgi(eng, e, a, kw):
+        opts = eng.lookup('self').f['options']
+        eng.ghost_env['ast_at_url_time'] = opts.f['availabilityStartTime']
+        eng.ghost_env['depth_at_url_time'] = opts.f['timeShiftBufferDepth']
+        return Obj('CgiParameterCollection', {'video': {'k': 'video'}, 'audio': {'k': 'audio'}, 'text': {'k': 'text'},
+                                              'manifest': {}, 'patch': {}, 'time': {}})
+
+    def append_params(eng, e, a, kw):
+        eng.eval(e.func.value).f['got_params'] = a[0]
+    period = lambda eng, a, kw: Obj('Period', dict(kw, adaptationSets=PyList([]), event_streams=PyList([]), baseURL=Opaque('base')))
+    return Contract(
+        key=f'{MCX}:ManifestContext.create_period', props=['C01', 'C16'], env=env,
+        models={'self.calculate_video_adaptation_set': lambda eng, e, a, kw: adp('video'),
+                'self.calculate_audio_adaptation_sets': lambda eng, e, a, kw: PyList([adp('audio'), adp('audio')]),
+                'self.calculate_text_adaptation_sets': lambda eng, e, a, kw: PyList([adp('text')]),
+                'self.update_timing': lambda eng, e, a, kw: None, 'self.calculate_cgi_parameters': cgi,
+                'video.append_cgi_params': append_params, 'audio.append_cgi_params': append_params, 'text.append_cgi_params': append_params,
+                'EventFactory.create_event_generators': lambda eng, e, a, kw: PyList([]),
+                'flask.url_for': lambda eng, e, a, kw: Opaque('url'), 'period.finish_setup': lambda eng, e, a, kw: None,
+                'is_https_request': lambda eng, e, a, kw: False},
+        ctors={'Period': period},
+        modifies=['self.options.availabilityStartTime', 'self.options.timeShiftBufferDepth', 'self.cgi_params', 'self.locationURL'],
+        ensures=[('urls_carry_the_resolved_window', 'micros(ast_at_url_time) == ast_us and depth_at_url_time == depth'),
+                 ('options_keep_the_resolved_window', 'micros(self.options.availabilityStartTime) == ast_us and self.options.timeShiftBufferDepth == depth'),
+                 ('each_type_gets_its_own_parameters', "params_of(result, 0, 'video') and params_of(result, 1, 'audio') and "
+                                                       "params_of(result, 2, 'audio') and params_of(result, 3, 'text') and "
+                                                       'length(result.adaptationSets) == 4')],
+        canaries=['depth_at_url_time == opt_depth'],
+        witness_terms=lambda w: (lambda ev: {k: ev(z3.Int(k)) for k in ('ast_us', 'depth', 'opt_depth')}),
+    )
+
+
+CREATE_PERIOD = create_period_contract()
 
 
 def mps_init_get_contract():
@@ -336,7 +395,7 @@ LIVE_PERIODS = Contract(
 
 
 GROUP = Group(
-    name='mps', world=world, contracts=MPS_INDEX + [VOD_PERIODS, LIVE_PERIODS] + MPS_GMS + [MPS_GET, MPS_INIT_GET],
+    name='mps', world=world, contracts=MPS_INDEX + [VOD_PERIODS, LIVE_PERIODS] + MPS_GMS + [MPS_GET, MPS_INIT_GET, CREATE_PERIOD],
     lemmas=[Lemma('mps_decode_times', ['C12'], lemma_mps_decode_times)],
     assumptions=[
         'C12: create_period returns a Period whose duration is the stored duration of the definition it was given; '
